@@ -508,7 +508,13 @@ func (c *compiler) compile(tok *token) []instruction {
 		res = append(res, c.compile(tok.Tokens[sliceObj])...)
 		res = append(res, c.compile(tok.Tokens[sliceBegin])...)
 		res = append(res, c.compile(tok.Tokens[sliceEnd])...)
-		res = append(res, instruction{Code: codeSlice})
+		// the parser stands an omitted end (x[i:]) in as the literal -1, which no valid
+		// program can write itself; A tells the VM that the end operand is that stand-in
+		openEnd := 0
+		if end := tok.Tokens[sliceEnd]; end.Symbol == "(int)" && end.Text == "-1" {
+			openEnd = 1
+		}
+		res = append(res, instruction{Code: codeSlice, A: reg(openEnd)})
 	case "func":
 		const funcArguments, funcReturns, funcBlock = 0, 1, 2
 		tmp := c.Locals
